@@ -758,7 +758,8 @@ class CouplingTerms(Hdf5Exportable):
         H_bond = [None] * L
         term_list = self.to_TermList()
         for term, strength in zip(term_list.terms, term_list.strength):
-            assert len(term) == 2
+            if len(term) != 2:  # multi-coupling terms act on at least 3 different sites
+                raise ValueError('not nearest neighbor')
             (op_i, i), (op_j, j) = term
             if i + 1 != j:
                 raise ValueError('not nearest neighbor')
